@@ -1,6 +1,7 @@
 package filesystem
 
 import (
+	"os/user"
 	"context"
 	"time"
 
@@ -225,6 +226,70 @@ func VerifC04_FaultyRemoval() {
 		verif.Reach("fault_injected")
 	}
 	verif.Observe("handles_balanced", lfs.opens == lfs.closes)
+}
+
+// VerifOverrideUserCurrent replaces os/user.Current under the engine (the real one
+// reads /etc/passwd); natively the real function runs. The harness does not
+// depend on which user it is.
+func VerifOverrideUserCurrent() (*user.User, error) {
+	return &user.User{Uid: "7", Gid: "7", Username: "verif", HomeDir: "/"}, nil
+}
+
+// VerifC04_RemoveWithPrivileges: the removal entry point that takes ownership
+// when its first attempt is refused. The tree holds a link to a file or a
+// directory outside it; whatever the call does to become able to remove the
+// tree, nothing outside -- owners included -- is modified.
+func VerifC04_RemoveWithPrivileges() {
+	lfs := newLinkFs()
+	_ = lfs.MkdirAll("/s/o/d", 0o755)
+	f, _ := lfs.Create("/s/o/y")
+	_ = f.Close()
+	_ = lfs.MkdirAll("/s/t/d", 0o755)
+	if verif.Bool("file") {
+		f, _ := lfs.Create("/s/t/a")
+		_ = f.Close()
+	}
+	targets := []string{"", "/s/o", "/s/o/y", "/missing"}
+	if t := targets[verif.Choice("topLink", len(targets))]; t != "" {
+		_ = lfs.SymlinkIfPossible(t, "/s/t/l")
+	}
+	if t := targets[verif.Choice("nestedLink", len(targets))]; t != "" {
+		_ = lfs.SymlinkIfPossible(t, "/s/t/d/l")
+	}
+	lfs.mu.Lock()
+	for _, n := range lfs.nodes {
+		n.uid, n.gid = 1000, 1000 // everything belongs to somebody else
+	}
+	lfs.mu.Unlock()
+	lfs.reset()
+	fs := NewVirtualFileSystem(lfs, InMemoryFS, IdentityPathConverterFunc)
+	before := vOutsideOf(lfs.snapshot())
+	// the first attempt is refused at its k-th removal (k = 0: it is not)
+	faultAt := verif.Len("firstAttemptRefusedAtRemoval", 0, 3)
+	removals := 0
+	lfs.before = func(op *vOp) error {
+		if op.name == "Remove" || op.name == "RemoveAll" {
+			removals++
+			if removals == faultAt {
+				return pathErr("remove", op.path, 13) // EACCES
+			}
+		}
+		return nil
+	}
+	err := fs.RemoveWithPrivileges(context.Background(), "/s/t")
+	lfs.before = nil
+	after := lfs.snapshot()
+	verif.Assert("nothing_outside_the_tree_is_touched", vSameEntries(before, vOutsideOf(after)))
+	left := 0
+	for _, e := range after {
+		if vPathInside("/s/t", e.path) {
+			left++
+		}
+	}
+	verif.Observe("failed", err != nil)
+	if err == nil {
+		verif.Assert("success_means_the_tree_is_gone", left == 0)
+	}
 }
 
 // VerifC04_GarbageCollect: collecting garbage below a root never removes the
